@@ -32,6 +32,9 @@ var c07Ops = []c07Op{
 	{"*", "2"}, {"*", "1.5"}, {"/", "2"}, {"/", "1.5"}, {"div", "2"}, {"div", "1.5"}, {"mod", "2"}, {"mod", "1.5"},
 	{"=", "1"}, {"=", "'a'"}, {"=", "%names"}, {"!=", "1"}, {"!=", "%names"},
 	{"<", "1"}, {"<=", "'a'"}, {">", "@2020"}, {">=", "1.5"},
+	// a multi-item partner: the empty operand still decides (the statement is unconditional)
+	{"+", "%ints"}, {"-", "%ints"}, {"*", "%ints"}, {"/", "%ints"}, {"div", "%ints"}, {"mod", "%ints"},
+	{"<", "%ints"}, {"<=", "%strs"}, {">", "%ints"}, {">=", "%names"}, {"=", "%ints"}, {"!=", "%strs"},
 }
 
 func c07Enum(yield func(c07Case)) {
